@@ -97,6 +97,22 @@ CHECKS['C05'] = ('DESIGN.md#C05',
     'oracle), shapely area. Known finding F3b (disconnected labels) is '
     'deferred to the end of each history and counted.')
 
+CHECKS['C06'] = ('DESIGN.md#C06',
+    'Hypothesis-generated blended scenes/configurations with refinement '
+    'invariants on (input, output) and a differential nproc=1 vs nproc>=2 '
+    'under harness-owned, generated completion orders (synchronous executor '
+    '+ permuted as_completed); real spawn pools in the thorough tier',
+    'Generated-input and generated-schedule search: footprint preserved, '
+    'every output label inside one input segment, parents untouched or '
+    'partitioned into >=2 children of >=npixels, labels 1..N iff relabel, '
+    'contrast=1 copy, parent->children map equal to the pixels, input image '
+    'and its caches bit-identical, and bit-identical output (data, maps, '
+    'info) for every drawn nproc and completion order. Held on N cases; not '
+    'a proof.',
+    'Schedules are owned by the harness through rebinding of two module '
+    'globals (no source hook); OS-level races inside concurrent.futures are '
+    'only touched by the thorough tier real-pool runs.')
+
 NOT_APPLICABLE = []
 
 
